@@ -155,8 +155,8 @@ fn emit(salt: i64, ops: &[Op], st: &mut Stream) {
 
 /// all sequences of length 1..=depth over at most `max_live` simultaneously live outputs
 fn enumerate(depth: usize, max_live: usize, seq: &mut Vec<Op>, live: &mut Vec<usize>, next_id: usize, st: &mut Stream, salt: i64) {
-    if !seq.is_empty() { emit(salt, seq, st); st.count(&format!("exhaustive_len_{}", seq.len())); }
-    if seq.len() == depth { return; }
+    // called once per exact length (shortest sequences first, so the first reported failure is a shortest one)
+    if seq.len() == depth { emit(salt, seq, st); st.count(&format!("exhaustive_len_{}", seq.len())); return; }
     if live.len() < max_live {
         seq.push(Op::Send); live.push(next_id);
         enumerate(depth, max_live, seq, live, next_id + 1, st, salt);
@@ -238,7 +238,7 @@ pub fn run(a: &Args) {
     let mut rng = Rng::new(a.seed, "bus");
     // ---- exhaustive: every sequence up to the depth, at most 3 simultaneously live outputs
     let depth = if a.thorough() { 10 } else { 8 };
-    enumerate(depth, 3, &mut Vec::new(), &mut Vec::new(), 0, &mut st, 1000);
+    for d in 1..=depth { enumerate(d, 3, &mut Vec::new(), &mut Vec::new(), 0, &mut st, 1000); }
     st.note(&format!("exhaustive part: every send/next/drop sequence of length 1..={} with at most 3 simultaneously live outputs ({} cases)", depth, st.cases));
     // ---- random longer sequences, up to 8 simultaneously live outputs
     let n_rand = if a.thorough() { 60_000 } else { 4_000 };
